@@ -357,7 +357,7 @@ pub fn run(ctx: &Ctx, rep: &mut Report) {
     rep.assume("messages are built from public fields, independent of the decoder");
 
     // exhaustive raw tables under many (scale, offset) pairs
-    for (ws, quick, thorough) in [(8u8, 2_000u64, 40_000u64), (16u8, 160, 4_000)] {
+    for (ws, quick, thorough) in [(8u8, 30_000u64, 600_000u64), (16u8, 1_500, 30_000)] {
         let sub = if ws == 8 { "value-tables-8bit" } else { "value-tables-16bit" };
         rep.prop(
             sub,
@@ -378,7 +378,7 @@ pub fn run(ctx: &Ctx, rep: &mut Report) {
     rep.prop(
         "radials",
         "proptest: decode-level messages built from public fields: valid date/time, all 256 spacing and status codes, finite angles, each of the 7 moments present/absent with 0..=64 (some to 1840) gates of 8 or 16 bits and finite scale/offset; oracle = radial() == into_radial(), accessor-by-accessor mapping, one value per gate by the closed form, decode level == model level; non-trivial = >= 1 moment with >= 2 gates and scale != 0",
-        ctx.tier.pick(5_000, 120_000),
+        ctx.tier.pick(100_000, 2_000_000),
         move || gen::drd(opts, gen::elevation_any(), None).prop_map(|drd| RadialCase { drd }),
         |c| {
             let ms: Vec<&MomentSpec> = c.drd.moments.iter().flatten().collect();
